@@ -17,8 +17,12 @@ INTEG_STEP = r"(step|add_res|calcrhs|calc_jacobian|solve_implicit)$"
 SCOPES = {
     "C01": [("modeldisc", ALLM, ALLM), ("mesh", ALLM, ALLM), ("mesh2d", ALLM, ALLM), ("meshbase", ALLM, ALLM), ("integration", ALLM, INTEG_STEP)],
     "C02": [(r"modelphy\..*", ALLM, r"(numflux.*|_[A-Za-z].*)$")],
-    "C03": [("modeldisc", ALLM, ALLM), ("xnum", ALLM, ALLM), (r"modelphy\..*", ALLM, r"(bc_.*|numflux.*|namedBC|cons2prim|prim2cons|_[A-Za-z].*)$"), ("integration", ALLM, INTEG_STEP)],
-    "C04": [("xnum", ALLM, ALLM), ("modeldisc", ALLM, ALLM), (r"modelphy\..*", ALLM, r"(numflux.*|_[A-Za-z].*)$")],
+    # C03: on a uniform state every difference the scheme forms is zero, so stale geometry or a stale
+    # (consistent) flux function cannot move it; only boundary states can
+    # (a stale Jacobian multiplies a zero residual: harmless too; INTEG-FIX covers the integrators)
+    "C03": [(r"modelphy\..*", ALLM, r"(bc_.*|namedBC)$")],
+    # C04: a stale flux *name* still selects a consistent flux (same order); reconstruction / operator state matters
+    "C04": [("xnum", ALLM, ALLM), ("modeldisc", ALLM, ALLM)],
     "C05": [("integration", ALLM, r"(step|add_res|calcrhs)$")],
     "C06": [("integration", ALLM, INTEG_STEP)],
     "C07": [("integration", ALLM, r"(_solve|solve|restart|reset|_check_end|add_res|step|calcrhs)$"), ("field", ALLM, ALLM)],
@@ -26,9 +30,12 @@ SCOPES = {
     "C10": [(r"modelphy\..*", ALLM, r"(numflux.*|_[A-Za-z].*|timestep)$"), ("modeldisc", ALLM, "calc_timestep$"), ("integration", ALLM, r"(step|add_res)$")],
     "C11": [("xnum", ALLM, ALLM), ("modeldisc", ALLM, r"(calc_grad|calc_bc_grad|interp.*|rhs|calc_bc)$")],
     "C12": [],
-    "C13": [("modeldisc", ALLM, ALLM), ("xnum", ALLM, ALLM), (r"modelphy\..*", ALLM, ALLM)],
-    "C14": [("modeldisc", ALLM, ALLM), ("mesh2d", ALLM, ALLM), ("xnum", ALLM, ALLM)],
-    "C15": [("modeldisc", ALLM, ALLM), ("xnum", ALLM, ALLM), ("mesh2d", ALLM, ALLM), (r"modelphy\.euler", ALLM, ALLM)],
+    # C13: state that depends on what the reflection / rescaling changes (geometry, dir, data); not the name dispatchers
+    "C13": [("modeldisc", ALLM, ALLM), ("xnum", ALLM, ALLM), (r"modelphy\..*", ALLM, r"(bc_.*|numflux_.*|timestep|cons2prim|prim2cons|_[A-Za-z].*)$")],
+    # C14: on a uniform mesh stale *geometry* is still uniform (translation invariant); index tables and operator state matter
+    "C14": [("modeldisc", ALLM, ALLM), ("mesh2d", ALLM, ALLM)],
+    # C15: the statement's reconstructions are extrapol2d1 / extrapol2dk and their 1D counterparts
+    "C15": [("modeldisc", ALLM, ALLM), ("xnum", r"extrapol.*", ALLM), ("mesh2d", ALLM, ALLM), (r"modelphy\.euler", ALLM, ALLM)],
     "C16": [(r"modelphy\..*", ALLM, r"(bc_.*|namedBC|_[A-Za-z].*)$"), ("modeldisc", ALLM, r"calc_bc.*$")],
     "C17": [(r"modelphy\..*", ALLM, r"(?!numflux|bc_|src_|timestep|namedBC).*$"), ("field", ALLM, ALLM)],
     "C18": [(r"modelphy\..*", ALLM, r"(timestep|_[A-Za-z].*)$"), ("modeldisc", ALLM, "calc_timestep$"), ("integration", ALLM, r"(_solve|add_res)$")],
